@@ -20,6 +20,6 @@ def power_law(alpha: float) -> callable:
     C = zeta(alpha)
 
     def p(k: int) -> float:
-        return pow(k, -alpha) / C
+        return pow(float(k), -alpha) / C
 
     return p
